@@ -485,6 +485,9 @@ func RunMembership(w *World, idx int) {
 				if modes[f] == types.WO {
 					fiat = true
 				}
+				if modes[f] != types.RW {
+					w.OperatorRW = true
+				}
 				w.rec(Step{K: "setmode", Addr: f.Addr, Note: "RW"})
 				w.C.SetReplicaMode(f.Addr, types.RW)
 				after = "setmode-RW"
@@ -916,7 +919,7 @@ func RunWorker(prop string, seed uint64, worker, cases int, out string) error {
 
 func runScenario(w *World, prop string, idx int) {
 	switch prop {
-	case "C03", "C18":
+	case "C03", "C18", "C10":
 		if prop == "C03" && idx%4 == 3 {
 			RunQuorumLossRace(w, idx)
 			return
